@@ -10,31 +10,32 @@ import (
 // consults no PRNG at all.
 
 type Config struct {
-	Property   string             `json:"property"`
-	Blocks     int                `json:"blocks"`
-	NActors    int                `json:"nActors"`
-	NVals      int                `json:"nVals"`
-	TxMean     float64            `json:"txMean"`
-	KindW      map[string]float64 `json:"kindW"`
-	PInvalid   float64            `json:"pInvalid"`
-	PAbsent    float64            `json:"pAbsent"`
-	POutage    float64            `json:"pOutage"`
-	PEvidence  float64            `json:"pEvidence"`
-	PTimeJump  float64            `json:"pTimeJump"`
-	PTamper    float64            `json:"pTamper"`
-	PGarbage   float64            `json:"pGarbage"`
-	PDup       float64            `json:"pDup"`
-	PReplay    float64            `json:"pReplay"`
-	Followers  int                `json:"followers"`
-	Noisy      bool               `json:"noisy"`
-	SideMean   float64            `json:"sideMean"`
-	PRestart   float64            `json:"pRestart"`
-	PCrash     float64            `json:"pCrash"`
-	CrashEnum  int                `json:"crashEnum"` // number of blocks whose crash points are all enumerated
-	PLag       float64            `json:"pLag"`
-	QueryMean  float64            `json:"queryMean"`
-	EVM        bool               `json:"evm"`
-	AvoidKnown bool               `json:"avoidKnown"` // do not generate the shapes of listed known findings
+	Property    string             `json:"property"`
+	Blocks      int                `json:"blocks"`
+	NActors     int                `json:"nActors"`
+	NVals       int                `json:"nVals"`
+	TxMean      float64            `json:"txMean"`
+	KindW       map[string]float64 `json:"kindW"`
+	PInvalid    float64            `json:"pInvalid"`
+	PAbsent     float64            `json:"pAbsent"`
+	POutage     float64            `json:"pOutage"`
+	PEvidence   float64            `json:"pEvidence"`
+	PTimeJump   float64            `json:"pTimeJump"`
+	PTamper     float64            `json:"pTamper"`
+	PGarbage    float64            `json:"pGarbage"`
+	PDup        float64            `json:"pDup"`
+	PReplay     float64            `json:"pReplay"`
+	Followers   int                `json:"followers"`
+	Noisy       bool               `json:"noisy"`
+	NoisyLeader bool               `json:"noisyLeader,omitempty"` // the side traffic goes to the block producer (the model's reference), followers stay quiet
+	SideMean    float64            `json:"sideMean"`
+	PRestart    float64            `json:"pRestart"`
+	PCrash      float64            `json:"pCrash"`
+	CrashEnum   int                `json:"crashEnum"` // number of blocks whose crash points are all enumerated
+	PLag        float64            `json:"pLag"`
+	QueryMean   float64            `json:"queryMean"`
+	EVM         bool               `json:"evm"`
+	AvoidKnown  bool               `json:"avoidKnown"` // do not generate the shapes of listed known findings
 }
 
 type GenActor struct {
